@@ -1,5 +1,6 @@
 import UPVerif.Core.Sexp
 import UPVerif.Core.Conflicts
+import UPVerif.Core.ConflictsTimed
 /-!
 line-protocol handler for C24: runs a history of insertion attempts through the model of the
 effect-conflict bookkeeping and prints, after every attempt, whether it raised and everything stored
@@ -9,6 +10,18 @@ case    := (hist <container> (timings <t>...) (ops <op>...))      container ∈ 
 op      := (eff <t> <assign|inc|dec> <fluent> <B|N> <val> <cond>) | (sim <t> (<fluent>...))
 val     := (bool T|F) | (int z) | (real n d) | (obj name) | (sym id)        cond := T | (c name)
 answer  := ((r <T|F> (<t> (effects <e>...) (sim none|(<fluent>...)) (assigned (<fluent> <val>)...) (incdec <fluent>...))...)...)
+
+Histories whose time points are written as the caller wrote them (model `Core/ConflictsTimed.lean`):
+
+case    := (thist <container> (timings <tm>...) (ops <top>...))       container ∈ da | act | sp | pb
+tm      := (tm <K> <C> <n> <d>)          canonical Timing: K ∈ gs|ge|s|e, C = container name or -, delay n/d in lowest terms
+texpr   := (timing <K> <C> <n> <d> <form>...) | (timepoint <K> <C> <form>...) | (num <n> <d> <form>...)
+           (the <form> atoms say how the Python object is constructed; the model does not look at them)
+top     := (eff <texpr> <assign|inc|dec> <fluent> <B|N> <val> <cond>) | (sim <texpr> (<fluent>...))
+           pb: every time must be a `timing` and there is no sim (signature of Problem.add_*effect);
+           sim: the time must be a `timing` (signature of set_simulated_effect)
+answer  := ((r <T|F> (slots (<tm> (effects ..) (sim ..) (assigned ..) (incdec ..))...) (stray <key>...))...)
+           stray = keys other than the listed canonical timings under which a dictionary holds content
 -/
 namespace UPVerif.Drv.C24
 open UPVerif UPVerif.Conflicts
@@ -81,7 +94,125 @@ def runOut (ts : List String) : Store → List (String × Op) → List Sexp
     let r := st.step x
     Sexp.list [.atom "r", Sexp.ofBool r.2, storeOut ts r.1] :: runOut ts r.1 l
 
+/-! ### time points as written -/
+
+def parseTPKind : Sexp → Option TPKind
+  | .atom "gs" => some .globalStart
+  | .atom "ge" => some .globalEnd
+  | .atom "s" => some .start
+  | .atom "e" => some .«end»
+  | _ => none
+
+def parseContainer : Sexp → Option (Option String)
+  | .atom "-" => some none
+  | .atom c => some (some c)
+  | _ => none
+
+def parseRat (n d : Sexp) : Option Rat := do
+  let n ← n.asInt?
+  let d ← d.asNat?
+  if d == 0 then none else some (mkRat n d)
+
+def parseTm : Sexp → Option Timing
+  | .list [.atom "tm", k, c, n, d] => do
+    let k ← parseTPKind k
+    let c ← parseContainer c
+    let q ← parseRat n d
+    some ⟨q, ⟨k, c⟩⟩
+  | _ => none
+
+def parseTimeExpr : Sexp → Option TimeExpr
+  | .list (.atom "timing" :: k :: c :: n :: d :: _) => do
+    let k ← parseTPKind k
+    let c ← parseContainer c
+    let q ← parseRat n d
+    some (.timing ⟨q, ⟨k, c⟩⟩)
+  | .list (.atom "timepoint" :: k :: c :: _) => do
+    let k ← parseTPKind k
+    let c ← parseContainer c
+    some (.timepoint ⟨k, c⟩)
+  | .list (.atom "num" :: n :: d :: _) => do
+    let q ← parseRat n d
+    some (.num q)
+  | _ => none
+
+/-- `pb` = the object is a `Problem` -/
+def parseTOp (pb : Bool) : Sexp → Option TOp
+  | .list [.atom "eff", te, k, .atom f, bt, v, c] => do
+    let te ← parseTimeExpr te
+    let k ← parseKind k
+    let bt ← (match bt with | .atom "B" => some true | .atom "N" => some false | _ => none)
+    let v ← parseVal v
+    let c ← parseCond c
+    if pb then
+      match te with
+      | .timing t => some (.peff t ⟨f, bt, k, v, c⟩)
+      | _ => none
+    else some (.eff te ⟨f, bt, k, v, c⟩)
+  | .list [.atom "sim", te, fl] => do
+    let te ← parseTimeExpr te
+    let fl ← fl.asStrs?
+    if pb then none
+    else match te with
+      | .timing t => some (.sim t fl)
+      | _ => none
+  | _ => none
+
+def kindAtom : TPKind → String
+  | .globalStart => "gs"
+  | .globalEnd => "ge"
+  | .start => "s"
+  | .«end» => "e"
+
+def containerOut : Option String → Sexp
+  | none => .atom "-"
+  | some c => .atom c
+
+def tmOut (t : Timing) : Sexp :=
+  Sexp.tag "tm" [.atom (kindAtom t.timepoint.kind), containerOut t.timepoint.container,
+                 Sexp.ofInt t.delay.num, Sexp.ofNat t.delay.den]
+
+def keyOut : TimeExpr → Sexp
+  | .timing t => tmOut t
+  | .timepoint p => Sexp.tag "timepoint" [.atom (kindAtom p.kind), containerOut p.container]
+  | .num q => Sexp.tag "num" [Sexp.ofInt q.num, Sexp.ofNat q.den]
+
+def slotOutS (label : Sexp) (s : Slot) : Sexp :=
+  match slotOut "" s with
+  | .list (_ :: rest) => .list (label :: rest)
+  | x => x
+
+/-- the keys written in the case (as written and canonicalised), without duplicates -/
+def candidateKeys (ops : List TOp) : List TimeExpr :=
+  (ops.flatMap (fun x => match x with
+    | .eff te _ => [te, x.key]
+    | _ => [x.key])).eraseDups
+
+def sortSexps (l : List Sexp) : List Sexp :=
+  ((l.map (fun x => (x.toString, x))).toArray.qsort (fun a b => a.1 < b.1)).toList.map (·.2)
+
+def tablesOut (ts : List Timing) (cand : List TimeExpr) (tb : Tables) : List Sexp :=
+  [Sexp.tag "slots" (ts.map (fun t => slotOutS (tmOut t) (tb.slot (.timing t)))),
+   Sexp.tag "stray" (sortSexps ((cand.filter (fun k =>
+     !(ts.map TimeExpr.timing).contains k && tb.slot k != Slot.empty)).map keyOut))]
+
+def runOutT (ts : List Timing) (cand : List TimeExpr) : Tables → List TOp → List Sexp
+  | _, [] => []
+  | tb, x :: l =>
+    let r := tb.step x
+    Sexp.list (.atom "r" :: Sexp.ofBool r.2 :: tablesOut ts cand r.1) :: runOutT ts cand r.1 l
+
+def handleT (c : String) (ts ops : List Sexp) : Sexp :=
+  if !(c == "da" || c == "act" || c == "sp" || c == "pb") then .atom "bad-case" else
+  match ts.mapM parseTm, ops.mapM (parseTOp (c == "pb")) with
+  | some ts, some ops =>
+    if ts.isEmpty || !ops.all (fun x => ts.contains x.point) then .atom "bad-case"
+    else .list (runOutT ts (candidateKeys ops) Tables.empty ops)
+  | _, _ => .atom "bad-case"
+
 def handle : Sexp → Sexp
+  | .list [.atom "thist", .atom c, .list (.atom "timings" :: ts), .list (.atom "ops" :: ops)] =>
+    handleT c ts ops
   | .list [.atom "hist", .atom c, .list (.atom "timings" :: ts), .list (.atom "ops" :: ops)] =>
     match (Sexp.list ts).asStrs?, ops.mapM parseOp with
     | some ts, some ops =>
